@@ -170,6 +170,23 @@ def run_tlc(module, cfg, consts=None, workers=None, timeout=900, extra=None, sim
     return r
 
 
+def run_tlapm(module, timeout=900):
+    """Checks the TLAPS proofs of spec/<module>.tla from scratch (no fingerprint cache).  A proof that
+    does not go through says something about the specification, never about the code: Infra."""
+    d = spec_dir()
+    shutil.rmtree(os.path.join(d, ".tlacache"), ignore_errors=True)
+    t0 = time.time()
+    try:
+        p = subprocess.run(["tlapm", "--threads", str(NCPU), "--cleanfp", module + ".tla"], cwd=d, stdout=subprocess.PIPE,
+                           stderr=subprocess.STDOUT, text=True, timeout=timeout, env=dict(os.environ))
+    except subprocess.TimeoutExpired:
+        raise Infra("tlapm timed out on %s" % module)
+    m = re.search(r"All (\d+) obligations? proved", p.stdout or "")
+    if p.returncode != 0 or not m:
+        raise Infra("tlapm did not prove %s:\n%s" % (module, (p.stdout or "")[-2000:]))
+    return dict(module=module, obligations=int(m.group(1)), wall_s=round(time.time() - t0, 2))
+
+
 def run_vh(sub, args, race=False, timeout=3600, env=None):
     vh = build_harness_race() if race else build_harness()
     _tlc_seq[0] += 1
@@ -219,6 +236,10 @@ class Check:
                                          wall_s=r["wall_s"]))
         if r["distinct"] == 0 and r["generated"] == 0:
             raise Infra("TLC run %s explored nothing (vacuous)" % name)
+
+    def add_proof(self, name, r, theorems):
+        self.cov.setdefault("tlaps_proofs", []).append(dict(name=name, module=r["module"], obligations_proved=r["obligations"],
+                                                            wall_s=r["wall_s"], theorems=theorems))
 
     def add_vh(self, name, r, props=None, traces=True, min_eval=1):
         """Merges a harness result. props: which properties' findings this check judges
